@@ -359,9 +359,9 @@ Definition m_trim_bounds (chars l : list Z) : nat * nat :=
   let p := m_skip_front chars l in
   let rest := skipn p l in
   (* --end; for(; end > p; --end) if(!strchr(chars, *end)) break; ++end *)
-  let back := match rev rest with
+  let back := match rest with
               | [] => O
-              | _ :: _ => Nat.min (m_skip_front chars (rev rest)) (length rest - 1)
+              | _ :: _ => Nat.min (m_skip_front chars (frev rest)) (length rest - 1)
               end in
   (p, length rest - back).
 
